@@ -111,18 +111,35 @@ def check_case(ctx, case):
     n_obs = len(obs)
 
     with workdir() as d:
+        # "filtered_extra": every synthetic catalog also holds one event below the first magnitude edge and the forecast is configured
+        # with the filter that removes it - on every pass, however many passes a test makes (a below-minimum event that slips through
+        # cannot be gridded)
+        FX = bool(case.get("filtered_extra"))
+        fkw = {"filters": ["magnitude >= %r" % S.edges[0]], "apply_filters": True} if FX else {}
+        if FX:
+            ctx.count("forecasts_with_a_filter_that_removes_events")
+
+        def below(ci):
+            e = list(S.event(1000 + ci, 0, 0))
+            e[0] = "below%d" % ci
+            e[5] = S.edges[0] - S.hm / 2
+            return tuple(e)
+
         def forecast():
             region = S.region()
             if case["source"] == "list":
+                from csep.core.catalogs import CSEPCatalog
                 cs = [S.catalog(region, obs=c, name="c") for c in cats]
+                if FX:
+                    cs = [CSEPCatalog(data=[below(i)] + [S.event(j, k, m) for j, (k, m) in enumerate(c)], region=region, name="c") for i, c in enumerate(cats)]
                 for i, c in enumerate(cs):
                     c.catalog_id = i
-                return CatalogForecast(catalogs=cs, n_cat=J, region=region, start_time=G.T0, end_time=G.T1, name="cf")
+                return CatalogForecast(catalogs=cs, n_cat=J, region=region, start_time=G.T0, end_time=G.T1, name="cf", **fkw)
             p = os.path.join(d, "f.csv")
             if not os.path.exists(p):
-                raw = [[S.event(i, k, m) for i, (k, m) in enumerate(c)] for c in cats]
+                raw = [([below(ci)] if FX else []) + [S.event(i, k, m) for i, (k, m) in enumerate(c)] for ci, c in enumerate(cats)]
                 files.write_catalog_forecast(p, raw, ["omit" if i % 2 else "placeholder" for i in range(J)], frac="us")
-            return csep.load_catalog_forecast(p, region=region, start_time=G.T0, end_time=G.T1, name="cf", store=(case["source"] == "file_store"))
+            return csep.load_catalog_forecast(p, region=region, start_time=G.T0, end_time=G.T1, name="cf", store=(case["source"] == "file_store"), **fkw)
 
         def observed():
             return S.catalog(S.region(), obs=obs)
@@ -346,7 +363,8 @@ def cases(draw):
     return {"setup": setup, "cats": cats, "obs": obs, "source": draw(st.sampled_from(["list", "file_store", "file_nostore"])),
             "seed": draw(st.sampled_from([0, 1, 12345])), "obs_class": cls, "verbose": draw(st.integers(0, 3)) == 0,
             **({"repeat": draw(st.sampled_from([10, 25]))} if draw(st.integers(0, 11)) == 0 else {}),
-            **({"np_divide_raise": True} if draw(st.integers(0, 3)) == 0 else {})}
+            **({"np_divide_raise": True} if draw(st.integers(0, 3)) == 0 else {}),
+            **({"filtered_extra": True} if draw(st.integers(0, 2)) == 0 else {})}
 
 
 def run(ctx):
